@@ -60,6 +60,10 @@ func RunCases(hs map[string]func()) {
 				switch x := r.(type) {
 				case nil:
 					res.Outcome = "ok"
+					if allocExceeded() {
+						res.Outcome = "allocfail"
+						res.Label = "allocation beyond limit"
+					}
 				case CheckFailure:
 					res.Outcome = "checkfail"
 					res.Label = x.Label
